@@ -81,7 +81,7 @@ def proc_ppid(pid):
 
 class Server:
     def __init__(self, worker_class="sync", workers=1, graceful=3, bind="unix", pidfile=True, marker="m0", threads=2,
-                 keepalive=2, timeout=30, daemon=False, extra=None, dash_m=False, app_prelude=""):
+                 keepalive=2, timeout=30, daemon=False, extra=None, dash_m=False, app_prelude="", second_bind=False):
         self.dir = tempfile.mkdtemp(prefix="srv-", dir=str(scratch_root()))
         self.worker_class = worker_class
         self.bind = bind
@@ -98,6 +98,7 @@ class Server:
             self.settings.update(extra)
         self.daemon = daemon
         self.dash_m = dash_m
+        self.second_bind = second_bind              # a second listener (unix socket) on which nothing ever arrives
         self.proc = None
         self.master = None
         with open(os.path.join(self.dir, "launch.py"), "w") as fh:
@@ -122,6 +123,8 @@ class Server:
         env.pop("GUNICORN_CMD_ARGS", None)
         env["PYTHONDONTWRITEBYTECODE"] = "1"
         args = ([PY, "-m", "gunicorn"] if self.dash_m else [PY, "launch.py"]) + ["-c", self.conf, "-b", self.bind_arg(), "--log-file", self.log, "--log-level", "info"]
+        if self.second_bind:
+            args += ["-b", "unix:" + os.path.join(self.dir, "g2.sock")]
         if self.pidfile:
             args += ["-p", self.pidfile]
         if self.daemon:
